@@ -312,3 +312,64 @@ func TestVerifConcFieldTypes(t *testing.T) {
 	}
 	vtrace.Done("TestVerifConcFieldTypes", map[string]interface{}{"rounds": rounds})
 }
+
+// Concurrent creators of DIFFERENT new fields of one measurement (and of new measurements): every
+// acknowledged write must be readable afterwards - the field registry is shared state that each writer
+// updates by copy-on-write (C19: "every acknowledged write stays readable").
+func TestVerifConcNewFields(t *testing.T) {
+	rounds := vtrace.EnvInt("VERIF_ROUNDS", 60)
+	writes := 0
+	for r := 0; r < rounds; r++ {
+		s := MustOpenStore([]string{"inmem", "tsi1"}[r%2])
+		if err := s.CreateShard("db0", "rp0", 1, true); err != nil {
+			t.Fatal(err)
+		}
+		sh := s.Shard(1)
+		// the measurement exists with one field before the race
+		s.MustWriteToShardString(1, "m,host=h base=1i 1")
+		nW := 8
+		ok := make([]int32, nW)
+		var wg sync.WaitGroup
+		start := make(chan struct{})
+		for w := 0; w < nW; w++ {
+			wg.Add(1)
+			go func(w int) {
+				defer wg.Done()
+				<-start
+				pt := models.MustNewPoint("m", models.NewTags(map[string]string{"host": "h"}), models.Fields{fmt.Sprintf("f%d", w): int64(w + 1)}, time.Unix(0, int64(100+w)))
+				if err := sh.WritePoints([]models.Point{pt}); err == nil {
+					atomic.StoreInt32(&ok[w], 1)
+				}
+			}(w)
+		}
+		close(start)
+		wg.Wait()
+		rep := map[string]interface{}{"test": "NEWFIELDS", "round": r}
+		for w := 0; w < nW; w++ {
+			if atomic.LoadInt32(&ok[w]) == 0 {
+				continue
+			}
+			writes++
+			itr, err := sh.CreateIterator(context.Background(), &influxql.Measurement{Name: "m"}, query.IteratorOptions{
+				Expr: influxql.MustParseExpr(fmt.Sprintf("f%d", w)), Ascending: true, StartTime: influxql.MinTime, EndTime: influxql.MaxTime})
+			n := 0
+			if err == nil && itr != nil {
+				func() {
+					defer func() {
+						if rec := recover(); rec != nil {
+							err = fmt.Errorf("panic: %v", rec)
+						}
+					}()
+					vcDrain(itr, &n)
+				}()
+				itr.Close()
+			}
+			if err != nil || n != 1 {
+				vtrace.Mismatch("conc:newfields:acked-unreadable", fmt.Sprintf("round %d: the write of m.f%d was acknowledged but a read of that field returns %d points (err=%v) - %d concurrent writers each created a different new field of the measurement", r, w, n, err, nW), rep)
+				break
+			}
+		}
+		s.Close()
+	}
+	vtrace.Done("TestVerifConcNewFields", map[string]interface{}{"rounds": rounds, "writes": writes})
+}
